@@ -133,6 +133,8 @@ pub enum ParameterKind {
   Number,
   String,
   Callable,
+  Enumerator,
+  Class,
 }
 
 impl ParameterKind {
@@ -150,6 +152,8 @@ impl ParameterKind {
         ObjectKind::Closure | ObjectKind::Fun | ObjectKind::Native | ObjectKind::Method
       ),
       (ParameterKind::String, ValueKind::Obj) => value.is_obj_kind(ObjectKind::String),
+      (ParameterKind::Enumerator, ValueKind::Obj) => value.is_obj_kind(ObjectKind::Enumerator),
+      (ParameterKind::Class, ValueKind::Obj) => value.is_obj_kind(ObjectKind::Class),
       _ => false,
     }
   }
@@ -182,6 +186,8 @@ impl Display for ParameterKind {
       ParameterKind::Number => write!(f, "number"),
       ParameterKind::String => write!(f, "string"),
       ParameterKind::Callable => write!(f, "callable"),
+      ParameterKind::Enumerator => write!(f, "iterator"),
+      ParameterKind::Class => write!(f, "class"),
     }
   }
 }
